@@ -1,10 +1,12 @@
 import Proofs.C11FullMono
+import Proofs.C11Print
 /-! C11 — widened grammar: the printed form of a well-formed tree parses back to the tree. Core Lean only. -/
 set_option linter.unusedSimpArgs false
 set_option linter.unusedVariables false
 namespace Proofs.C11.Full
 open FqModel.C11.Full
 open FqModel.C11.Print (Op Assoc)
+open Proofs.C11.Print (op_lmin_rmin op_prec_le_rmin op_prec_lt_100 op_prec_le_lmin op_non)
 
 /-! ### monotonicity, packaged -/
 
@@ -48,7 +50,7 @@ mutual
     | .def_ _ ps fb rest => ps.length + cost fb + cost rest + 6
     | .interp q => cost q + 6
     | .kvKey _ (some v) => cost v + 6
-    | .kvStr s none => cost s + 6
+    | .kvStr s none => cost s
     | .kvStr s (some v) => cost s + cost v + 6
     | .kvQ q v => cost q + cost v + 6
     | .elif c t => cost c + cost t + 6
@@ -240,7 +242,7 @@ def PA (e : E) : Prop := ∀ f F rest x, f + cost e ≤ F + 1 → hazard e rest 
 def PB (e : E) : Prop := ∀ F rest, cost e ≤ F → tfollow e rest = true → parseTerm F (print e ++ rest) = some (e, rest)
 def PC (e : E) : Prop := ∀ f F m q rest x, f + cost e + 2 ≤ F → entry e m q = true → follow e q rest = true →
   climb f m e (prevOf e) rest = some x → parseExpr F m q (print e ++ rest) = some x
-def PStr (s : E) : Prop := ∀ F rest, cost s ≤ F → parseStrTail F (strHead (print s ++ rest)) = some (s, rest)
+def PStr (s : E) : Prop := ∀ F rest, cost s ≤ F + 4 → parseStrTail F (strHead (print s ++ rest)) = some (s, rest)
 def PBr (b : E) : Prop := ∀ F rest, cost b ≤ F → parseBracket F (print b ++ rest) = some (b, rest)
 /-- after an object entry / objectval: `,` or `}` -/
 def sepStop (rest : List Tok) : Bool := headIs (.op .comma) rest || headIs .rbrace rest
@@ -296,8 +298,15 @@ theorem postfix_stop (f : Nat) (t : E) (rest : List Tok) (h : headCont rest = fa
   | nil => simp [parsePostfix]
   | cons tk r => cases tk <;> simp_all [parsePostfix, headCont, contTok]
 
-theorem cost_ge (e : E) : 6 ≤ cost e := by
-  cases e <;> first | (simp only [cost]; omega) | (rename_i o; cases o <;> simp only [cost] <;> omega)
+theorem cost_ge : ∀ (e : E), 6 ≤ cost e
+  | .kvStr s none => by have := cost_ge s; simpa [cost] using this
+  | .kvStr _ (some _) | .kvKey _ none | .kvKey _ (some _) | .arr none | .arr (some _) | .ite _ _ _ none | .ite _ _ _ (some _)
+  | .try_ _ none | .try_ _ (some _) | .foreach _ _ _ _ none | .foreach _ _ _ _ (some _)
+  | .num _ | .strl _ | .istr _ | .ident _ | .var _ | .call _ _ | .field _ | .dot | .dotdot | .dotStr _ | .dotIdx _ | .lit _
+  | .fmt _ | .fmtS _ _ | .obj _ | .neg _ | .pos _ | .reduce _ _ _ _ | .brk _ | .paren _ | .opt _ | .sfxField _ _
+  | .sfxStr _ _ | .sfxBr _ _ | .bin _ _ _ | .bind _ _ _ | .label _ _ | .def_ _ _ _ _ | .piece _ | .interp _ | .kvQ _ _
+  | .elif _ _ | .bIter | .bIdx _ | .bSliceL _ | .bSliceR _ | .bSlice _ _ | .pvar _ | .parr _ | .pobj _ | .peVar _
+  | .peKey _ _ | .peStr _ _ | .peQ _ _ => by simp only [cost]; omega
 
 theorem PB_of_PA (e : E) (hA : PA e) (hh : ∀ rest, headCont rest = false → hazard e rest = true) : PB e := by
   intro F rest hF hf
@@ -478,18 +487,18 @@ theorem elifs_ok : ∀ (es : List E), (∀ x ∈ es, Good x) → wfAll .elifC es
 
 
 /-- element of a separated list, by category -/
-def PElem (c : Cat) (x : E) : Prop := ∀ F rest, cost x + 1 ≤ F → sepStop rest = true ∨ headIs .rbrack rest = true →
-  parseElem F c (print x ++ rest) = some (x, rest)
+def PElem (c : Cat) (close : Tok) (x : E) : Prop := ∀ F rest, cost x + 1 ≤ F →
+  headIs (.op .comma) rest = true ∨ headIs close rest = true → parseElem F c (print x ++ rest) = some (x, rest)
 
 theorem sep_ok (c : Cat) (close : Tok) (hclose : close = .rbrace ∨ close = .rbrack) :
-    ∀ (xs : List E), xs ≠ [] → (∀ x ∈ xs, PElem c x) →
+    ∀ (xs : List E), xs ≠ [] → (∀ x ∈ xs, PElem c close x) →
     ∀ F rest, costL xs + 3 ≤ F → parseSep F c (.op .comma) close (printSep (.op .comma) xs ++ close :: rest) = some (xs, rest)
   | [], hne, _, _, _, _ => absurd rfl hne
   | [x], _, hg, F, rest, hF => by
     simp only [costL] at hF
     obtain ⟨F1, rfl⟩ : ∃ F1, F = F1 + 1 := ⟨F - 1, by omega⟩
     simp only [printSep, parseSep]
-    rw [hg x (by simp) F1 (close :: rest) (by omega) (by rcases hclose with h | h <;> subst h <;> simp [sepStop, headIs])]
+    rw [hg x (by simp) F1 (close :: rest) (by omega) (Or.inr (by simp [headIs]))]
     have hne : close ≠ .op .comma := by rcases hclose with h | h <;> subst h <;> simp
     simp [bnd, onTok, expect, hne]
   | x :: y :: ys, _, hg, F, rest, hF => by
@@ -497,7 +506,7 @@ theorem sep_ok (c : Cat) (close : Tok) (hclose : close = .rbrace ∨ close = .rb
     simp only [costL] at hF ih
     obtain ⟨F1, rfl⟩ : ∃ F1, F = F1 + 1 := ⟨F - 1, by omega⟩
     simp only [printSep, List.append_assoc, List.cons_append, parseSep]
-    rw [hg x (by simp) F1 _ (by omega) (by simp [sepStop, headIs])]
+    rw [hg x (by simp) F1 _ (by omega) (Or.inl (by simp [headIs]))]
     simp only [bnd, onTok, if_true]
     rw [ih F1 rest (by omega)]
 
@@ -668,8 +677,8 @@ theorem mkOther (e : E) (hnq : cat e ≠ .query) (hnp : isPostfixable e = false)
 theorem hazard_quest (t : E) (r) : hazard t (.quest :: r) = true := by cases t <;> simp [hazard, headIs, noStr, strHead]
 theorem hazard_field (t : E) (s r) : hazard t (.field s :: r) = true := by cases t <;> simp [hazard, headIs, noStr, strHead]
 theorem hazard_dot (t : E) (r) : hazard t (.dot :: r) = true := by cases t <;> simp [hazard, headIs, noStr, strHead]
-theorem hazard_lbrack (t : E) (r) (h : (match t with | .dot => false | _ => true) = true) : hazard t (.lbrack :: r) = true := by
-  cases t <;> simp_all [hazard, headIs, noStr, strHead]
+theorem hazard_lbrack (t : E) (r) (h : notDot t = true) : hazard t (.lbrack :: r) = true := by
+  cases t <;> simp_all [hazard, headIs, noStr, strHead, notDot]
 
 theorem hazard_of_noCont (e : E) (rest : List Tok) (h : headCont rest = false) : hazard e rest = true := by
   cases rest with
@@ -706,5 +715,1171 @@ theorem stops_of_follow_open (e : E) (q : Bool) (rest : List Tok) (ho : isOpen e
     cases t with
     | kw k => cases k <;> simp_all [follow, stops]
     | _ => simp_all [follow, stops]
+
+theorem onStr_no {β : Type} (ts : List Tok) (A : β) (B : StrHead → β) (h : strHead ts = .no) : onStr ts A B = A := by
+  simp [onStr, h]
+
+theorem PA_atom (e : E) (tk : Tok) (hp : print e = [tk])
+    (hstep : ∀ F1 rest, hazard e rest = true → parseTerm (F1 + 1) (tk :: rest) = parsePostfix F1 e rest) : PA e := by
+  intro f F rest x hF hh hpf
+  have := cost_ge e
+  obtain ⟨F1, rfl⟩ : ∃ F1, F = F1 + 1 := ⟨F - 1, by omega⟩
+  rw [hp]
+  simp only [List.cons_append, List.nil_append]
+  rw [hstep F1 rest hh]
+  exact postfix_mono (by omega) hpf
+
+theorem good_atom (e : E) (tk : Tok) (hw : wf e = true) (ht : isTerm e = true) (hp' : isPostfixable e = true)
+    (hstr : isStr e = false) (hp : print e = [tk])
+    (hstep : ∀ F1 rest, hazard e rest = true → parseTerm (F1 + 1) (tk :: rest) = parsePostfix F1 e rest) : Good e := by
+  have hA := PA_atom e tk hp hstep
+  exact mkTerm e hw ht hstr (fun _ => hA) (PB_of_PA e hA (hazard_of_noCont e))
+
+theorem noStr_strHead (rest : List Tok) (h : noStr rest = true) : strHead rest = .no := by
+  unfold noStr at h
+  cases hs : strHead rest <;> simp_all
+
+theorem good_num (s : String) : Good (.num s) :=
+  good_atom _ (.num s) rfl rfl rfl rfl rfl (by intro F1 rest _; simp [parseTerm])
+theorem good_var (s : String) : Good (.var s) :=
+  good_atom _ (.var s) rfl rfl rfl rfl rfl (by intro F1 rest _; simp [parseTerm])
+theorem good_field (s : String) : Good (.field s) :=
+  good_atom _ (.field s) rfl rfl rfl rfl rfl (by intro F1 rest _; simp [parseTerm])
+theorem good_dotdot : Good .dotdot :=
+  good_atom _ .dotdot rfl rfl rfl rfl rfl (by intro F1 rest _; simp [parseTerm])
+theorem good_lit (k : Kw) (hw : wf (.lit k) = true) : Good (.lit k) :=
+  good_atom _ (.kw k) hw rfl rfl rfl rfl (by
+    intro F1 rest _
+    cases k <;> simp [wf, isLitKw] at hw <;> simp [parseTerm])
+theorem good_ident (s : String) : Good (.ident s) := good_atom _ (.ident s) rfl rfl rfl rfl rfl (by
+  intro F1 rest hh
+  simp only [hazard, Bool.not_eq_true'] at hh
+  cases rest with
+  | nil => simp [parseTerm, onTok]
+  | cons t ts =>
+    have : t ≠ .lparen := by intro h; subst h; simp [headIs] at hh
+    simp [parseTerm, onTok, this])
+theorem good_fmt (s : String) : Good (.fmt s) := good_atom _ (.fmt s) rfl rfl rfl rfl rfl (by
+  intro F1 rest hh
+  simp only [hazard] at hh
+  simp [parseTerm, onStr_no _ _ _ (noStr_strHead rest hh)])
+theorem good_dot : Good .dot := good_atom _ .dot rfl rfl rfl rfl rfl (by
+  intro F1 rest hh
+  simp only [hazard, Bool.and_eq_true, Bool.not_eq_true'] at hh
+  have h2 := noStr_strHead rest hh.2
+  cases rest with
+  | nil => simp [parseTerm, onTok, onStr, strHead]
+  | cons t ts =>
+    have : t ≠ .lbrack := by intro h; subst h; simp [headIs] at hh
+    simp [parseTerm, onTok, this, onStr_no _ _ _ h2])
+
+theorem good_brk (s : String) : Good (.brk s) := by
+  have hA : PA (.brk s) := by
+    intro f F rest x hF _ hpf
+    simp only [cost] at hF
+    obtain ⟨F1, rfl⟩ : ∃ F1, F = F1 + 1 := ⟨F - 1, by omega⟩
+    simp only [print, List.cons_append, List.nil_append, parseTerm]
+    exact postfix_mono (by omega) hpf
+  exact mkTerm _ rfl rfl rfl (fun _ => hA) (PB_of_PA _ hA (hazard_of_noCont _))
+
+theorem good_strl (s : String) : Good (.strl s) := by
+  have hA : PA (.strl s) := PA_atom _ (.str s) rfl (by intro F1 rest _; simp [parseTerm])
+  have hS : PStr (.strl s) := by
+    intro F rest hF
+    simp only [cost] at hF
+    obtain ⟨F1, rfl⟩ : ∃ F1, F = F1 + 1 := ⟨F - 1, by omega⟩
+    simp [print, strHead, parseStrTail]
+  exact mkStrTerm _ rfl rfl hS hA (PB_of_PA _ hA (hazard_of_noCont _))
+
+theorem good_istr (ps : List E) (hw : wf (.istr ps) = true) (hg : ∀ p ∈ ps, Good p) : Good (.istr ps) := by
+  have hwp : wfAll .part ps = true := by simpa [wf] using hw
+  have hA : PA (.istr ps) := by
+    intro f F rest x hF _ hpf
+    simp only [cost] at hF
+    obtain ⟨F1, rfl⟩ : ∃ F1, F = F1 + 1 := ⟨F - 1, by omega⟩
+    simp only [print, List.cons_append, List.append_assoc, List.nil_append, parseTerm]
+    rw [parts_ok ps hg hwp F1 rest (by omega)]
+    simp only [bnd]
+    exact postfix_mono (by omega) hpf
+  have hS : PStr (.istr ps) := by
+    intro F rest hF
+    simp only [cost] at hF
+    obtain ⟨F1, rfl⟩ : ∃ F1, F = F1 + 1 := ⟨F - 1, by omega⟩
+    simp only [print, List.cons_append, List.append_assoc, List.nil_append, strHead, parseStrTail]
+    rw [parts_ok ps hg hwp F1 rest (by omega)]
+    rfl
+  exact mkStrTerm _ hw rfl hS hA (PB_of_PA _ hA (hazard_of_noCont _))
+
+theorem good_call (s : String) (as : List E) (hw : wf (.call s as) = true) (hg : ∀ a ∈ as, Good a) : Good (.call s as) := by
+  have hw' : as ≠ [] ∧ wfAll .query as = true := by
+    simp only [wf, Bool.and_eq_true, Bool.not_eq_true', List.isEmpty_eq_false_iff] at hw; exact hw
+  have hA : PA (.call s as) := by
+    intro f F rest x hF _ hpf
+    simp only [cost] at hF
+    obtain ⟨F1, rfl⟩ : ∃ F1, F = F1 + 1 := ⟨F - 1, by omega⟩
+    simp only [print, List.cons_append, List.append_assoc, List.nil_append, parseTerm, onTok_eq]
+    rw [args_ok as hw'.1 hg hw'.2 F1 rest (by omega)]
+    simp only [bnd]
+    exact postfix_mono (by omega) hpf
+  exact mkTerm _ hw rfl rfl (fun _ => hA) (PB_of_PA _ hA (hazard_of_noCont _))
+
+/-- a string at the head -/
+theorem onStr_str {β : Type} (s : E) (hs : isStr s = true) (rest : List Tok) (A : β) (B : StrHead → β) :
+    onStr (print s ++ rest) A B = B (strHead (print s ++ rest)) := by
+  cases s <;> simp [isStr] at hs <;> simp [print, onStr, strHead]
+
+theorem str_ne_lbrack {β : Type} (s : E) (hs : isStr s = true) (rest : List Tok) (k : List Tok → β) (n : β) (t : Tok)
+    (ht : t ≠ .str "" ∧ t ≠ .strStart ∧ (∀ x, t ≠ .str x)) : onTok t (print s ++ rest) k n = n := by
+  cases s <;> simp [isStr] at hs <;> simp [print, onTok]
+  · intro h; exact absurd h.symm (ht.2.2 _)
+  · intro h; exact absurd h.symm ht.2.1
+
+theorem good_dotStr (s : E) (hw : wf (.dotStr s) = true) (hg : Good s) : Good (.dotStr s) := by
+  have hw' : wf s = true ∧ isStr s = true := by simpa [wf] using hw
+  have hA : PA (.dotStr s) := by
+    intro f F rest x hF _ hpf
+    simp only [cost] at hF
+    obtain ⟨F1, rfl⟩ : ∃ F1, F = F1 + 1 := ⟨F - 1, by omega⟩
+    simp only [print, List.cons_append, parseTerm]
+    rw [str_ne_lbrack s hw'.2 rest _ _ .lbrack (by simp), onStr_str s hw'.2, hg.s hw'.2 F1 rest (by omega)]
+    simp only [bnd]
+    exact postfix_mono (by omega) hpf
+  exact mkTerm _ hw rfl rfl (fun _ => hA) (PB_of_PA _ hA (hazard_of_noCont _))
+
+theorem good_fmtS (n : String) (s : E) (hw : wf (.fmtS n s) = true) (hg : Good s) : Good (.fmtS n s) := by
+  have hw' : wf s = true ∧ isStr s = true := by simpa [wf] using hw
+  have hA : PA (.fmtS n s) := by
+    intro f F rest x hF _ hpf
+    simp only [cost] at hF
+    obtain ⟨F1, rfl⟩ : ∃ F1, F = F1 + 1 := ⟨F - 1, by omega⟩
+    simp only [print, List.cons_append, parseTerm]
+    rw [onStr_str s hw'.2, hg.s hw'.2 F1 rest (by omega)]
+    simp only [bnd]
+    exact postfix_mono (by omega) hpf
+  exact mkTerm _ hw rfl rfl (fun _ => hA) (PB_of_PA _ hA (hazard_of_noCont _))
+
+theorem good_dotIdx (b : E) (hw : wf (.dotIdx b) = true) (hg : Good b) : Good (.dotIdx b) := by
+  have hw' : wf b = true ∧ cat b = .bracket := by simpa [wf] using hw
+  have hA : PA (.dotIdx b) := by
+    intro f F rest x hF _ hpf
+    simp only [cost] at hF
+    obtain ⟨F1, rfl⟩ : ∃ F1, F = F1 + 1 := ⟨F - 1, by omega⟩
+    simp only [print, List.cons_append, parseTerm, onTok_eq]
+    rw [hg.br hw'.2 F1 rest (by omega)]
+    simp only [bnd]
+    exact postfix_mono (by omega) hpf
+  exact mkTerm _ hw rfl rfl (fun _ => hA) (PB_of_PA _ hA (hazard_of_noCont _))
+
+theorem good_arr_none : Good (.arr none) := by
+  have hA : PA (.arr none) := by
+    intro f F rest x hF _ hpf
+    simp only [cost] at hF
+    obtain ⟨F1, rfl⟩ : ∃ F1, F = F1 + 1 := ⟨F - 1, by omega⟩
+    simp only [print, List.cons_append, List.nil_append, parseTerm, onTok_eq]
+    exact postfix_mono (by omega) hpf
+  exact mkTerm _ rfl rfl rfl (fun _ => hA) (PB_of_PA _ hA (hazard_of_noCont _))
+
+theorem good_arr_some (q : E) (hw : wf (.arr (some q)) = true) (hg : Good q) : Good (.arr (some q)) := by
+  have hw' : wf q = true ∧ cat q = .query := by simpa [wf, isQ] using hw
+  have hA : PA (.arr (some q)) := by
+    intro f F rest x hF _ hpf
+    simp only [cost] at hF
+    obtain ⟨F1, rfl⟩ : ∃ F1, F = F1 + 1 := ⟨F - 1, by omega⟩
+    simp only [print, List.cons_append, List.append_assoc, List.nil_append, parseTerm]
+    rw [onTok_query .rbrack q hw'.1 hw'.2 _ _ _ rfl, hole q (hg.c hw'.2) F1 _ (stops_rbrack _) (by omega)]
+    simp only [bnd, expect, if_true]
+    exact postfix_mono (by omega) hpf
+  exact mkTerm _ hw rfl rfl (fun _ => hA) (PB_of_PA _ hA (hazard_of_noCont _))
+
+theorem good_paren (e : E) (hw : wf (.paren e) = true) (hg : Good e) : Good (.paren e) := by
+  have hw' : wf e = true ∧ cat e = .query := by simpa [wf, isQ] using hw
+  have hA : PA (.paren e) := by
+    intro f F rest x hF _ hpf
+    simp only [cost] at hF
+    obtain ⟨F1, rfl⟩ : ∃ F1, F = F1 + 1 := ⟨F - 1, by omega⟩
+    simp only [print, List.cons_append, List.append_assoc, List.nil_append, parseTerm]
+    rw [hole e (hg.c hw'.2) F1 _ (stops_rparen _) (by omega)]
+    simp only [bnd, expect, if_true]
+    exact postfix_mono (by omega) hpf
+  exact mkTerm _ hw rfl rfl (fun _ => hA) (PB_of_PA _ hA (hazard_of_noCont _))
+
+theorem PElem_entry (x : E) (hc : cat x = .entry) (hg : Good x) : PElem .entry .rbrace x := by
+  intro F rest hF hs
+  obtain ⟨F1, rfl⟩ : ∃ F1, F = F1 + 1 := ⟨F - 1, by omega⟩
+  simp only [parseElem]
+  exact hg.en hc F1 rest (by omega) (by simpa [sepStop] using hs)
+
+theorem PElem_pattern (close : Tok) (x : E) (hc : cat x = .pattern) (hg : Good x) : PElem .pattern close x := by
+  intro F rest hF _
+  obtain ⟨F1, rfl⟩ : ∃ F1, F = F1 + 1 := ⟨F - 1, by omega⟩
+  simp only [parseElem]
+  exact hg.pt hc F1 rest (by omega)
+
+theorem PElem_patEntry (x : E) (hc : cat x = .patEntry) (hg : Good x) : PElem .patEntry .rbrace x := by
+  intro F rest hF hs
+  obtain ⟨F1, rfl⟩ : ∃ F1, F = F1 + 1 := ⟨F - 1, by omega⟩
+  simp only [parseElem]
+  refine hg.pe hc F1 rest (by omega) ?_
+  cases rest with
+  | nil => simp [headIs] at hs
+  | cons t ts =>
+    simp only [headIs, beq_iff_eq] at hs ⊢
+    rcases hs with h | h <;> subst h <;> simp
+
+/-- the first token of an object entry / pattern entry is not `}` -/
+theorem entry_head_ne_rbrace : ∀ (x : E), wf x = true → cat x = .entry ∨ cat x = .patEntry →
+    ∃ hd tl, print x = hd :: tl ∧ hd ≠ .rbrace
+  | .kvKey k none, hw, _ => ⟨k, [], rfl, by intro h; subst h; simp [wf, isKeyTok] at hw⟩
+  | .kvKey k (some v), hw, _ => ⟨k, _, rfl, by intro h; subst h; simp [wf, isKeyTok] at hw⟩
+  | .kvStr s none, hw, _ => by
+    have : isStr s = true := by simp [wf] at hw; exact hw.2
+    cases s <;> simp [isStr] at this <;> exact ⟨_, _, rfl, by simp⟩
+  | .kvStr s (some v), hw, _ => by
+    have : isStr s = true := by simp [wf] at hw; exact hw.1.1.2
+    cases s <;> simp [isStr] at this <;> exact ⟨_, _, rfl, by simp⟩
+  | .kvQ q v, _, _ => ⟨_, _, rfl, by simp⟩
+  | .peVar s, _, _ => ⟨_, _, rfl, by simp⟩
+  | .peKey k p, hw, _ => ⟨k, _, rfl, by intro h; subst h; simp [wf, isKeyTok] at hw⟩
+  | .peStr s p, hw, _ => by
+    have : isStr s = true := by simp [wf] at hw; exact hw.1.1.2
+    cases s <;> simp [isStr] at this <;> exact ⟨_, _, rfl, by simp⟩
+  | .peQ q p, _, _ => ⟨_, _, rfl, by simp⟩
+  | .num _, _, h | .strl _, _, h | .istr _, _, h | .ident _, _, h | .var _, _, h | .call _ _, _, h | .field _, _, h
+  | .dot, _, h | .dotdot, _, h | .dotStr _, _, h | .dotIdx _, _, h | .lit _, _, h | .fmt _, _, h | .fmtS _ _, _, h
+  | .arr _, _, h | .obj _, _, h | .neg _, _, h | .pos _, _, h | .ite _ _ _ _, _, h | .try_ _ _, _, h
+  | .reduce _ _ _ _, _, h | .foreach _ _ _ _ _, _, h | .brk _, _, h | .paren _, _, h | .opt _, _, h
+  | .sfxField _ _, _, h | .sfxStr _ _, _, h | .sfxBr _ _, _, h | .bin _ _ _, _, h | .bind _ _ _, _, h | .label _ _, _, h
+  | .def_ _ _ _ _, _, h | .piece _, _, h | .interp _, _, h | .elif _ _, _, h
+  | .bIter, _, h | .bIdx _, _, h | .bSliceL _, _, h | .bSliceR _, _, h | .bSlice _ _, _, h
+  | .pvar _, _, h | .parr _, _, h | .pobj _, _, h => by simp [cat] at h
+
+theorem printSep_head (sep : Tok) (x : E) (xs : List E) : ∃ tl, printSep sep (x :: xs) = print x ++ tl := by
+  cases xs with
+  | nil => exact ⟨[], by simp [printSep]⟩
+  | cons y ys => exact ⟨sep :: printSep sep (y :: ys), by simp [printSep]⟩
+
+theorem good_obj (kvs : List E) (hw : wf (.obj kvs) = true) (hg : ∀ x ∈ kvs, Good x) : Good (.obj kvs) := by
+  have hwa : wfAll .entry kvs = true := by simpa [wf] using hw
+  have hA : PA (.obj kvs) := by
+    intro f F rest x hF _ hpf
+    simp only [cost] at hF
+    obtain ⟨F1, rfl⟩ : ∃ F1, F = F1 + 1 := ⟨F - 1, by omega⟩
+    cases kvs with
+    | nil =>
+      simp only [print, printSep, List.cons_append, List.nil_append, parseTerm, onTok_eq]
+      exact postfix_mono (by omega) hpf
+    | cons kv rest' =>
+      obtain ⟨hwk, hck, _⟩ := wfAll_cons _ kv rest' hwa
+      obtain ⟨hd, tl, h1, h2⟩ := entry_head_ne_rbrace kv hwk (Or.inl hck)
+      obtain ⟨tl2, h3⟩ := printSep_head (.op .comma) kv rest'
+      simp only [print, List.cons_append, List.append_assoc, List.nil_append, parseTerm]
+      have hne : ∀ {β : Type} (k : List Tok → β) (n : β),
+          onTok .rbrace (printSep (.op .comma) (kv :: rest') ++ .rbrace :: rest) k n = n := by
+        intro β k n
+        rw [h3, h1]
+        simp [onTok, h2]
+      rw [hne, sep_ok .entry .rbrace (Or.inl rfl) (kv :: rest') (by simp)
+        (fun z hz => PElem_entry z ((wfAll_mem _ _ hwa z hz).2) (hg z hz)) F1 rest (by omega)]
+      simp only [bnd]
+      exact postfix_mono (by omega) hpf
+  exact mkTerm _ hw rfl rfl (fun _ => hA) (PB_of_PA _ hA (hazard_of_noCont _))
+
+theorem stops_elifs_tail (es : List E) (hws : wfAll .elifC es = true) (els : Option E) (rest : List Tok) :
+    stops (printCat es ++ (elseToks els ++ rest)) = true := by
+  cases es with
+  | nil => simpa [printCat] using stops_elseToks els rest
+  | cons y ys =>
+    obtain ⟨_, hcy, _⟩ := wfAll_cons _ y ys hws
+    cases y <;> simp [cat] at hcy
+    simp [printCat, print, stops, contTok]
+
+theorem good_ite (c t : E) (es : List E) (els : Option E) (hw : wf (.ite c t es els) = true)
+    (hgc : Good c) (hgt : Good t) (hges : ∀ x ∈ es, Good x) (hgel : ∀ e, els = some e → Good e) : Good (.ite c t es els) := by
+  have hw' : wf c = true ∧ cat c = .query ∧ wf t = true ∧ cat t = .query ∧ wfAll .elifC es = true ∧
+      (∀ e, els = some e → wf e = true ∧ cat e = .query) := by
+    cases els with
+    | none => simp only [wf, Bool.and_eq_true, isQ, beq_iff_eq] at hw; exact ⟨hw.1.1.1.1, hw.1.1.1.2, hw.1.1.2, hw.1.2, hw.2, by simp⟩
+    | some e =>
+      simp only [wf, Bool.and_eq_true, isQ, beq_iff_eq] at hw
+      exact ⟨hw.1.1.1.1.1.1, hw.1.1.1.1.1.2, hw.1.1.1.1.2, hw.1.1.1.2, hw.1.1.2, by intro e' h; cases h; exact ⟨hw.1.2, hw.2⟩⟩
+  obtain ⟨hwc, hcc, hwt, hct, hwes, hwel⟩ := hw'
+  have hA : PA (.ite c t es els) := by
+    intro f F rest x hF _ hpf
+    rw [cost_ite] at hF
+    have := cost_ge c
+    have := cost_ge t
+    obtain ⟨F1, rfl⟩ : ∃ F1, F = F1 + 1 := ⟨F - 1, by omega⟩
+    rw [print_ite]
+    simp only [List.cons_append, List.append_assoc, parseTerm]
+    rw [hole c (hgc.c hcc) F1 _ (stops_kw_then _) (by omega)]
+    simp only [bnd, expect, if_true]
+    rw [hole t (hgt.c hct) F1 _ (stops_elifs_tail es hwes els rest) (by omega)]
+    simp only [bnd]
+    rw [elifs_ok es hges hwes els (fun e h => (hgel e h).c (hwel e h).2) F1 rest (by omega)]
+    simp only [bnd]
+    exact postfix_mono (by omega) hpf
+  exact mkTerm _ hw rfl rfl (fun _ => hA) (PB_of_PA _ hA (hazard_of_noCont _))
+
+theorem good_reduce (src p a b : E) (hw : wf (.reduce src p a b) = true)
+    (hgs : Good src) (hgp : Good p) (hga : Good a) (hgb : Good b) : Good (.reduce src p a b) := by
+  simp only [wf, Bool.and_eq_true, isQ, beq_iff_eq, Bool.not_eq_true', Nat.ble_eq] at hw
+  obtain ⟨⟨⟨⟨⟨⟨⟨⟨⟨hws, hcs⟩, hos⟩, hls⟩, hwp⟩, hcp⟩, hwa⟩, hca⟩, hwb⟩, hcb⟩ := hw
+  have hw2 : wf (.reduce src p a b) = true := by
+    simp [wf, isQ, hws, hcs, hos, hls, hwp, hcp, hwa, hca, hwb, hcb, Nat.ble_eq]
+  have hA : PA (.reduce src p a b) := by
+    intro f F rest x hF _ hpf
+    simp only [cost] at hF
+    have := cost_ge src; have := cost_ge p; have := cost_ge a; have := cost_ge b
+    obtain ⟨F1, rfl⟩ : ∃ F1, F = F1 + 1 := ⟨F - 1, by omega⟩
+    simp only [print, List.cons_append, List.append_assoc, List.nil_append, parseTerm]
+    rw [hole3 src (hgs.c hcs) hws hos hls F1 _ (Or.inr (Or.inr ⟨_, rfl⟩)) (by omega)]
+    simp only [bnd, expect, if_true]
+    rw [hgp.pt hcp F1 _ (by omega)]
+    simp only [bnd, expect, if_true]
+    rw [hole a (hga.c hca) F1 _ (stops_semi _) (by omega)]
+    simp only [bnd, expect, if_true]
+    rw [hole b (hgb.c hcb) F1 _ (stops_rparen _) (by omega)]
+    simp only [bnd, expect, if_true]
+    exact postfix_mono (by omega) hpf
+  exact mkTerm _ hw2 rfl rfl (fun _ => hA) (PB_of_PA _ hA (hazard_of_noCont _))
+
+theorem good_foreach_none (src p a b : E) (hw : wf (.foreach src p a b none) = true)
+    (hgs : Good src) (hgp : Good p) (hga : Good a) (hgb : Good b) : Good (.foreach src p a b none) := by
+  have hw2 := hw
+  simp only [wf, Bool.and_eq_true, isQ, beq_iff_eq, Bool.not_eq_true', Nat.ble_eq] at hw
+  obtain ⟨⟨⟨⟨⟨⟨⟨⟨⟨hws, hcs⟩, hos⟩, hls⟩, hwp⟩, hcp⟩, hwa⟩, hca⟩, hwb⟩, hcb⟩ := hw
+  have hA : PA (.foreach src p a b none) := by
+    intro f F rest x hF _ hpf
+    simp only [cost] at hF
+    have := cost_ge src; have := cost_ge p; have := cost_ge a; have := cost_ge b
+    obtain ⟨F1, rfl⟩ : ∃ F1, F = F1 + 1 := ⟨F - 1, by omega⟩
+    simp only [print, List.cons_append, List.append_assoc, List.nil_append, parseTerm]
+    rw [hole3 src (hgs.c hcs) hws hos hls F1 _ (Or.inr (Or.inr ⟨_, rfl⟩)) (by omega)]
+    simp only [bnd, expect, if_true]
+    rw [hgp.pt hcp F1 _ (by omega)]
+    simp only [bnd, expect, if_true]
+    rw [hole a (hga.c hca) F1 _ (stops_semi _) (by omega)]
+    simp only [bnd, expect, if_true]
+    rw [hole b (hgb.c hcb) F1 _ (stops_rparen _) (by omega)]
+    simp only [bnd]
+    rw [onTok_ne _ _ _ _ _ (by simp)]
+    simp only [expect, if_true]
+    exact postfix_mono (by omega) hpf
+  exact mkTerm _ hw2 rfl rfl (fun _ => hA) (PB_of_PA _ hA (hazard_of_noCont _))
+
+theorem good_foreach_some (src p a b c : E) (hw : wf (.foreach src p a b (some c)) = true)
+    (hgs : Good src) (hgp : Good p) (hga : Good a) (hgb : Good b) (hgc : Good c) : Good (.foreach src p a b (some c)) := by
+  have hw2 := hw
+  simp only [wf, Bool.and_eq_true, isQ, beq_iff_eq, Bool.not_eq_true', Nat.ble_eq] at hw
+  obtain ⟨⟨⟨⟨⟨⟨⟨⟨⟨⟨⟨hws, hcs⟩, hos⟩, hls⟩, hwp⟩, hcp⟩, hwa⟩, hca⟩, hwb⟩, hcb⟩, hwc⟩, hcc⟩ := hw
+  have hA : PA (.foreach src p a b (some c)) := by
+    intro f F rest x hF _ hpf
+    simp only [cost] at hF
+    have := cost_ge src; have := cost_ge p; have := cost_ge a; have := cost_ge b; have := cost_ge c
+    obtain ⟨F1, rfl⟩ : ∃ F1, F = F1 + 1 := ⟨F - 1, by omega⟩
+    simp only [print, List.cons_append, List.append_assoc, List.nil_append, parseTerm]
+    rw [hole3 src (hgs.c hcs) hws hos hls F1 _ (Or.inr (Or.inr ⟨_, rfl⟩)) (by omega)]
+    simp only [bnd, expect, if_true]
+    rw [hgp.pt hcp F1 _ (by omega)]
+    simp only [bnd, expect, if_true]
+    rw [hole a (hga.c hca) F1 _ (stops_semi _) (by omega)]
+    simp only [bnd, expect, if_true]
+    rw [hole b (hgb.c hcb) F1 _ (stops_semi _) (by omega)]
+    simp only [bnd, onTok_eq]
+    rw [hole c (hgc.c hcc) F1 _ (stops_rparen _) (by omega)]
+    simp only [bnd, expect, if_true]
+    exact postfix_mono (by omega) hpf
+  exact mkTerm _ hw2 rfl rfl (fun _ => hA) (PB_of_PA _ hA (hazard_of_noCont _))
+
+/-! postfix forms -/
+
+theorem good_opt (t : E) (hw : wf (.opt t) = true) (hg : Good t) : Good (.opt t) := by
+  have hw' : wf t = true ∧ isPostfixable t = true := by simpa [wf] using hw
+  have hA : PA (.opt t) := by
+    intro f F rest x hF _ hpf
+    simp only [cost] at hF
+    simp only [print, List.append_assoc, List.cons_append, List.nil_append]
+    refine hg.a hw'.2 (f + 1) F (.quest :: rest) x (by omega) (hazard_quest t rest) ?_
+    simpa [parsePostfix] using hpf
+  exact mkTerm _ hw rfl rfl (fun _ => hA) (PB_of_PA _ hA (hazard_of_noCont _))
+
+theorem good_sfxField (t : E) (s : String) (hw : wf (.sfxField t s) = true) (hg : Good t) : Good (.sfxField t s) := by
+  have hw' : wf t = true ∧ isPostfixable t = true := by simpa [wf] using hw
+  have hA : PA (.sfxField t s) := by
+    intro f F rest x hF _ hpf
+    simp only [cost] at hF
+    simp only [print, List.append_assoc, List.cons_append, List.nil_append]
+    refine hg.a hw'.2 (f + 1) F (.field s :: rest) x (by omega) (hazard_field t s rest) ?_
+    simpa [parsePostfix] using hpf
+  exact mkTerm _ hw rfl rfl (fun _ => hA) (PB_of_PA _ hA (hazard_of_noCont _))
+
+theorem good_sfxStr (t s : E) (hw : wf (.sfxStr t s) = true) (hgt : Good t) (hgs : Good s) : Good (.sfxStr t s) := by
+  have hw' : (wf t = true ∧ isPostfixable t = true) ∧ wf s = true ∧ isStr s = true := by
+    simp only [wf, Bool.and_eq_true] at hw; exact ⟨⟨hw.1.1.1, hw.1.1.2⟩, hw.1.2, hw.2⟩
+  have hA : PA (.sfxStr t s) := by
+    intro f F rest x hF _ hpf
+    simp only [cost] at hF
+    simp only [print, List.append_assoc, List.cons_append]
+    refine hgt.a hw'.1.2 (f + cost s + 1) F (.dot :: (print s ++ rest)) x (by omega) (hazard_dot t _) ?_
+    simp only [parsePostfix]
+    rw [onStr_str s hw'.2.2, hgs.s hw'.2.2 (f + cost s) rest (by omega)]
+    simp only [bnd]
+    exact postfix_mono (by omega) hpf
+  exact mkTerm _ hw rfl rfl (fun _ => hA) (PB_of_PA _ hA (hazard_of_noCont _))
+
+theorem good_sfxBr (t b : E) (hw : wf (.sfxBr t b) = true) (hgt : Good t) (hgb : Good b) : Good (.sfxBr t b) := by
+  have hw' : wf t = true ∧ isPostfixable t = true ∧ notDot t = true ∧ wf b = true ∧ cat b = .bracket := by
+    simp only [wf, Bool.and_eq_true, beq_iff_eq] at hw; exact ⟨hw.1.1.1.1, hw.1.1.1.2, hw.1.1.2, hw.1.2, hw.2⟩
+  have hA : PA (.sfxBr t b) := by
+    intro f F rest x hF _ hpf
+    simp only [cost] at hF
+    simp only [print, List.append_assoc, List.cons_append]
+    refine hgt.a hw'.2.1 (f + cost b + 1) F (.lbrack :: (print b ++ rest)) x (by omega) (hazard_lbrack t _ hw'.2.2.1) ?_
+    simp only [parsePostfix]
+    rw [hgb.br hw'.2.2.2.2 (f + cost b) rest (by omega)]
+    simp only [bnd]
+    exact postfix_mono (by omega) hpf
+  exact mkTerm _ hw rfl rfl (fun _ => hA) (PB_of_PA _ hA (hazard_of_noCont _))
+
+/-! unary operators and try -/
+
+theorem tfollow_unary (e : E) (rest : List Tok) (d : danglingTry e = danglingTry (.neg e)) (h : tfollow (.neg e) rest = true) :
+    tfollow e rest = true := by
+  simpa [tfollow, danglingTry] using h
+
+theorem good_neg (e : E) (hw : wf (.neg e) = true) (hg : Good e) : Good (.neg e) := by
+  have hw' : wf e = true ∧ isTerm e = true := by simpa [wf] using hw
+  have hB : PB (.neg e) := by
+    intro F rest hF hf
+    simp only [cost] at hF
+    obtain ⟨F1, rfl⟩ : ∃ F1, F = F1 + 1 := ⟨F - 1, by omega⟩
+    simp only [print, List.cons_append, parseTerm]
+    rw [hg.b hw'.2 F1 rest (by omega) (by simpa [tfollow, danglingTry] using hf)]
+    rfl
+  exact mkTerm _ hw rfl rfl (fun h => by simp [isPostfixable] at h) hB
+
+theorem good_pos (e : E) (hw : wf (.pos e) = true) (hg : Good e) : Good (.pos e) := by
+  have hw' : wf e = true ∧ isTerm e = true := by simpa [wf] using hw
+  have hB : PB (.pos e) := by
+    intro F rest hF hf
+    simp only [cost] at hF
+    obtain ⟨F1, rfl⟩ : ∃ F1, F = F1 + 1 := ⟨F - 1, by omega⟩
+    simp only [print, List.cons_append, parseTerm]
+    rw [hg.b hw'.2 F1 rest (by omega) (by simpa [tfollow, danglingTry] using hf)]
+    rfl
+  exact mkTerm _ hw rfl rfl (fun h => by simp [isPostfixable] at h) hB
+
+theorem good_try_none (b : E) (hw : wf (.try_ b none) = true) (hg : Good b) : Good (.try_ b none) := by
+  have hw' : wf b = true ∧ isTerm b = true := by simpa [wf] using hw
+  have hB : PB (.try_ b none) := by
+    intro F rest hF hf
+    simp only [cost] at hF
+    obtain ⟨F1, rfl⟩ : ∃ F1, F = F1 + 1 := ⟨F - 1, by omega⟩
+    simp only [tfollow, danglingTry, Bool.and_eq_true, Bool.not_eq_true', Bool.or_eq_true, Bool.not_true, Bool.or_false] at hf
+    have hnc : headIs (.kw .catch_) rest = false := by simpa using hf.2
+    simp only [print, List.cons_append, parseTerm]
+    rw [hg.b hw'.2 F1 rest (by omega) (by simp [tfollow, hf.1, hnc])]
+    simp only [bnd]
+    cases rest with
+    | nil => simp [onTok]
+    | cons t ts =>
+      have : t ≠ .kw .catch_ := by intro h; subst h; simp [headIs] at hnc
+      simp [onTok, this]
+  exact mkTerm _ hw rfl rfl (fun h => by simp [isPostfixable] at h) hB
+
+theorem good_try_some (b c : E) (hw : wf (.try_ b (some c)) = true) (hgb : Good b) (hgc : Good c) : Good (.try_ b (some c)) := by
+  have hw' : wf b = true ∧ isTerm b = true ∧ danglingTry b = false ∧ wf c = true ∧ isTerm c = true := by
+    simp only [wf, Bool.and_eq_true, Bool.not_eq_true'] at hw; exact ⟨hw.1.1.1.1, hw.1.1.1.2, hw.1.1.2, hw.1.2, hw.2⟩
+  have hB : PB (.try_ b (some c)) := by
+    intro F rest hF hf
+    simp only [cost] at hF
+    obtain ⟨F1, rfl⟩ : ∃ F1, F = F1 + 1 := ⟨F - 1, by omega⟩
+    simp only [print, List.cons_append, List.append_assoc, parseTerm]
+    rw [hgb.b hw'.2.1 F1 _ (by omega) (by simp [tfollow, headCont, contTok, hw'.2.2.1])]
+    simp only [bnd, onTok_eq]
+    rw [hgc.b hw'.2.2.2.2 F1 rest (by omega) (by simpa [tfollow, danglingTry] using hf)]
+  exact mkTerm _ hw rfl rfl (fun h => by simp [isPostfixable] at h) hB
+
+theorem absorb_ge (e : E) (o : Op) (h : o.lmin ≤ level e) : o.prec < absorb e := by
+  cases e <;> first | exact op_lmin_rmin o _ h | exact op_prec_lt_100 o
+
+theorem prevOf_cases (e : E) : prevOf e = 0 ∨ prevOf e = level e := by
+  cases e <;> simp [prevOf, level]
+
+theorem not_open_of_level (e : E) (h : 1 ≤ level e) : isOpen e = false := by
+  cases e <;> simp_all [isOpen, level]
+
+structure BinWf (o : Op) (l r : E) : Prop where
+  wl : wf l = true
+  wr : wf r = true
+  ql : cat l = .query
+  qr : cat r = .query
+  ol : openRight l = false
+  ll : o.lmin ≤ level l
+  rr : (if isOpen r then o.queryLevel else Nat.ble o.rmin (level r)) = true
+
+theorem binWf (o : Op) (l r : E) (hw : wf (.bin o l r) = true) : BinWf o l r := by
+  simp only [wf, Bool.and_eq_true, Nat.ble_eq, Bool.not_eq_true', isQ, beq_iff_eq] at hw
+  obtain ⟨⟨⟨⟨⟨⟨h1, h2⟩, h3⟩, h4⟩, h5⟩, h6⟩, h7⟩ := hw
+  exact ⟨h1, h2, h3, h4, h5, h6, h7⟩
+
+theorem follow_left (o : Op) (l r : E) (q : Bool) (X : List Tok) (h : BinWf o l r) : follow l q (.op o :: X) = true := by
+  simp [follow, h.ol, Nat.blt_eq, absorb_ge l o h.ll]
+
+theorem op_query_prec (o : Op) (h : 3 ≤ o.prec) : o.queryLevel = false := by cases o <;> simp_all [Op.queryLevel, Op.prec]
+
+theorem follow_right (o : Op) (l r : E) (q : Bool) (rest : List Tok) (h : BinWf o l r)
+    (hf : follow (.bin o l r) q rest = true) : follow r o.queryLevel rest = true := by
+  cases rest with
+  | nil => rfl
+  | cons t ts =>
+    cases t with
+    | op o' =>
+      simp only [follow, openRight, absorb, Bool.and_eq_true, Bool.not_eq_true', Nat.blt_eq] at hf ⊢
+      obtain ⟨hor, hlt⟩ := hf
+      refine ⟨hor, ?_⟩
+      have hno : isOpen r = false := by cases r <;> simp_all [isOpen, openRight]
+      have hr' : o.rmin ≤ level r := by have := h.rr; simpa [hno, Nat.ble_eq] using this
+      cases r with
+      | bin o2 l2 r2 =>
+        simp only [absorb, level] at hr' ⊢
+        have := op_prec_le_rmin o2
+        omega
+      | _ => simp only [absorb]; have := op_prec_lt_100 o'; omega
+    | kw k =>
+      cases k with
+      | as_ =>
+        simp only [follow, isOpen, level, Bool.and_eq_true, Bool.not_eq_true', Nat.ble_eq, Bool.not_false, Bool.and_true] at hf
+        have hq := op_query_prec o hf.2
+        have hno : isOpen r = false := by
+          have := h.rr
+          by_cases hor : isOpen r = true
+          · simp [hor, hq] at this
+          · simpa using hor
+        have hr' : o.rmin ≤ level r := by have := h.rr; simpa [hno, Nat.ble_eq] using this
+        have := op_prec_le_rmin o
+        simp [follow, hq, hno, Nat.ble_eq]
+        omega
+      | _ => simp_all [follow]
+    | _ => simp_all [follow]
+
+theorem climb_right_stops (f : Nat) (o : Op) (l r : E) (q : Bool) (p : Nat) (rest : List Tok)
+    (hf : follow (.bin o l r) q rest = true) : climb (f + 1) o.rmin r p rest = some (r, rest) := by
+  simp only [climb]
+  cases rest with
+  | nil => rfl
+  | cons t ts =>
+    cases t with
+    | op o' =>
+      simp only [follow, absorb, Bool.and_eq_true, Nat.blt_eq] at hf
+      have : ¬ (o.rmin ≤ o'.prec) := by omega
+      simp [onOp, this]
+    | _ => simp [onOp]
+
+theorem good_bin (o : Op) (l r : E) (hw : wf (.bin o l r) = true) (hgl : Good l) (hgr : Good r) : Good (.bin o l r) := by
+  have h := binWf o l r hw
+  have hC : PC (.bin o l r) := by
+    intro f F m q rest x hF hen hfo hcl
+    simp only [cost] at hF
+    have := cost_ge l; have := cost_ge r
+    have hCl := hgl.c h.ql
+    have hCr := hgr.c h.qr
+    have hm : m ≤ o.prec := by simpa [entry, isOpen, level, Nat.ble_eq] using hen
+    have hentry_r : entry r o.rmin o.queryLevel = true := by
+      have := h.rr
+      unfold entry
+      split <;> simp_all
+    have hr_parse : parseExpr (cost r + 3) o.rmin o.queryLevel (print r ++ rest) = some (r, rest) :=
+      hCr 1 (cost r + 3) o.rmin o.queryLevel rest (r, rest) (by omega) hentry_r (follow_right o l r q rest h hfo)
+        (climb_right_stops 0 o l r q (prevOf r) rest hfo)
+    have hnon : ¬ (o.assoc = .non ∧ o.prec = prevOf l) := by
+      intro ⟨h1, h2⟩
+      have h3 := op_non o h1
+      have h4 := op_prec_pos o
+      have := h.ll
+      rcases prevOf_cases l with h5 | h5 <;> omega
+    have hcl_l : climb (f + cost r + 3 + 1) m l (prevOf l) (.op o :: (print r ++ rest)) = some x := by
+      simp only [climb, onOp]
+      rw [if_pos hm, if_neg hnon, expr_mono (by omega) hr_parse]
+      simp only [bnd]
+      exact climb_mono (f := f) (f' := f + cost r + 3) (by omega) hcl
+    have hnol : isOpen l = false := not_open_of_level l (by have := op_prec_pos o; have := op_prec_le_lmin o; have := h.ll; omega)
+    have hentry_l : entry l m q = true := by
+      simp only [entry, hnol, Nat.ble_eq]
+      have := op_prec_le_lmin o
+      have := h.ll
+      simp; omega
+    have := hCl (f + cost r + 3 + 1) F m q (.op o :: (print r ++ rest)) x (by omega) hentry_l (follow_left o l r q _ h) hcl_l
+    simpa [print, List.append_assoc] using this
+  have hOV : isObjVal (.bin o l r) = true → PObjVal (.bin o l r) := by
+    intro hov
+    cases o with
+    | pipe =>
+      simp only [isObjVal, Bool.and_eq_true, beq_iff_eq, Bool.not_eq_true', Nat.ble_eq] at hov
+      obtain ⟨⟨⟨_, hol⟩, hll⟩, hovr⟩ := hov
+      intro F rest hF hs
+      simp only [cost] at hF
+      have := cost_ge l; have := cost_ge r
+      obtain ⟨F1, rfl⟩ : ∃ F1, F = F1 + 1 := ⟨F - 1, by omega⟩
+      simp only [print, List.append_assoc, List.cons_append, parseObjVal]
+      rw [hole3 l (hgl.c h.ql) h.wl hol hll F1 _ (Or.inr (Or.inl ⟨.pipe, _, rfl, by decide⟩)) (by omega)]
+      simp only [bnd, onTok_eq]
+      rw [hgr.ov h.qr hovr F1 rest (by omega) hs]
+    | _ =>
+      simp only [isObjVal, Bool.and_eq_true, beq_iff_eq, Bool.not_eq_true', Nat.ble_eq] at hov
+      exact objval_simple _ hC hw hov.1.2 hov.2
+  exact mkQuery _ rfl rfl rfl rfl hC hOV
+
+/-- the body of an open form: everything up to a closing token -/
+theorem open_body (b : E) (hC : PC b) (F : Nat) (rest : List Tok) (hs : stops rest = true) (hF : cost b + 3 ≤ F) :
+    parseExpr F 1 true (print b ++ rest) = some (b, rest) := hole b hC F rest hs hF
+
+theorem good_bind (t : E) (ps : List E) (b : E) (hw : wf (.bind t ps b) = true)
+    (hgt : Good t) (hgp : ∀ p ∈ ps, Good p) (hgb : Good b) : Good (.bind t ps b) := by
+  have hw' : wf t = true ∧ isTerm t = true ∧ ps ≠ [] ∧ wfAll .pattern ps = true ∧ wf b = true ∧ cat b = .query := by
+    simp only [wf, Bool.and_eq_true, Bool.not_eq_true', List.isEmpty_eq_false_iff, isQ, beq_iff_eq] at hw
+    exact ⟨hw.1.1.1.1.1, hw.1.1.1.1.2, hw.1.1.1.2, hw.1.1.2, hw.1.2, hw.2⟩
+  obtain ⟨hwt, htt, hne, hwp, hwb, hcb⟩ := hw'
+  have hC : PC (.bind t ps b) := by
+    intro f F m q rest x hF hen hfo hcl
+    simp only [cost] at hF
+    have := cost_ge t; have := cost_ge b
+    have hq : q = true := by simpa [entry, isOpen] using hen
+    subst hq
+    have hst : stops rest = true := stops_of_follow_open _ _ rest rfl hfo
+    obtain ⟨hd, tl, hpr, hhd⟩ := term_head t hwt htt
+    obtain ⟨hn1, hn2⟩ := termHead_not_label hd hhd
+    obtain ⟨F1, rfl⟩ : ∃ F1, F = F1 + 1 + 1 := ⟨F - 2, by omega⟩
+    have hterm : parseTerm F1 (print t ++ (.kw .as_ :: (printSep .destalt ps ++ (.op .pipe :: (print b ++ rest))))) =
+        some (t, .kw .as_ :: (printSep .destalt ps ++ (.op .pipe :: (print b ++ rest)))) :=
+      hgt.b htt F1 _ (by omega) (by simp [tfollow, headCont, contTok, headIs])
+    have hpats : parsePats F1 (printSep .destalt ps ++ (.op .pipe :: (print b ++ rest))) = some (ps, .op .pipe :: (print b ++ rest)) :=
+      pats_ok ps hne (fun p hp => (hgp p hp).pt (wfAll_mem _ _ hwp p hp).2) F1 _ (by omega) (by simp [headIs])
+    simp only [print, List.append_assoc, List.cons_append, parseExpr, parseOperand]
+    rw [show print t ++ (.kw .as_ :: (printSep .destalt ps ++ (.op .pipe :: (print b ++ rest)))) =
+      hd :: (tl ++ (.kw .as_ :: (printSep .destalt ps ++ (.op .pipe :: (print b ++ rest))))) by rw [hpr]; rfl]
+    rw [onTok_ne _ _ _ _ _ hn1, onTok_ne _ _ _ _ _ hn2]
+    rw [show hd :: (tl ++ (.kw .as_ :: (printSep .destalt ps ++ (.op .pipe :: (print b ++ rest))))) =
+      print t ++ (.kw .as_ :: (printSep .destalt ps ++ (.op .pipe :: (print b ++ rest)))) by rw [hpr]; rfl, hterm]
+    simp only [bnd, onTok_eq, if_true]
+    rw [hpats]
+    simp only [bnd, expect, if_true]
+    rw [open_body b (hgb.c hcb) F1 rest hst (by omega)]
+    simp only [bnd]
+    simp only [prevOf] at hcl
+    exact climb_mono (f := f) (f' := F1 + 1) (by omega) hcl
+  exact mkQuery _ rfl rfl rfl rfl hC (fun h => by simp [isObjVal, isOpen, cat] at h)
+
+theorem good_label (s : String) (b : E) (hw : wf (.label s b) = true) (hgb : Good b) : Good (.label s b) := by
+  have hw' : wf b = true ∧ cat b = .query := by simpa [wf, isQ] using hw
+  have hC : PC (.label s b) := by
+    intro f F m q rest x hF hen hfo hcl
+    simp only [cost] at hF
+    have hq : q = true := by simpa [entry, isOpen] using hen
+    subst hq
+    have hst : stops rest = true := stops_of_follow_open _ _ rest rfl hfo
+    obtain ⟨F1, rfl⟩ : ∃ F1, F = F1 + 1 + 1 := ⟨F - 2, by omega⟩
+    simp only [print, List.cons_append, parseExpr, parseOperand, onTok_eq, if_true]
+    rw [open_body b (hgb.c hw'.2) F1 rest hst (by omega)]
+    simp only [bnd]
+    simp only [prevOf] at hcl
+    exact climb_mono (f := f) (f' := F1 + 1) (by omega) hcl
+  exact mkQuery _ rfl rfl rfl rfl hC (fun h => by simp [isObjVal, isOpen, cat] at h)
+
+theorem good_def (n : String) (ps : List Tok) (fb rest' : E) (hw : wf (.def_ n ps fb rest') = true)
+    (hgf : Good fb) (hgr : Good rest') : Good (.def_ n ps fb rest') := by
+  have hw' : ps.all isParamTok = true ∧ wf fb = true ∧ cat fb = .query ∧ wf rest' = true ∧ cat rest' = .query := by
+    simp only [wf, Bool.and_eq_true, isQ, beq_iff_eq] at hw
+    exact ⟨hw.1.1.1.1, hw.1.1.1.2, hw.1.1.2, hw.1.2, hw.2⟩
+  obtain ⟨hps, hwf, hcf, hwr, hcr⟩ := hw'
+  have hC : PC (.def_ n ps fb rest') := by
+    intro f F m q rest x hF hen hfo hcl
+    simp only [cost] at hF
+    have := cost_ge fb; have := cost_ge rest'
+    have hq : q = true := by simpa [entry, isOpen] using hen
+    subst hq
+    have hst : stops rest = true := stops_of_follow_open _ _ rest rfl hfo
+    obtain ⟨F1, rfl⟩ : ∃ F1, F = F1 + 1 + 1 := ⟨F - 2, by omega⟩
+    simp only [prevOf] at hcl
+    have hcl' := climb_mono (f := f) (f' := F1 + 1) (by omega) hcl
+    cases ps with
+    | nil =>
+      simp only [print, List.cons_append, List.append_assoc, parseExpr, parseOperand]
+      rw [onTok_ne _ _ _ _ _ (by simp), onTok_eq]
+      simp only [if_true]
+      rw [onTok_ne _ _ _ _ _ (by simp)]
+      simp only [expect, if_true]
+      rw [hole fb (hgf.c hcf) F1 _ (stops_semi _) (by omega)]
+      simp only [bnd, expect, if_true]
+      rw [open_body rest' (hgr.c hcr) F1 rest hst (by omega)]
+      simp only [bnd]
+      exact hcl'
+    | cons p ps' =>
+      simp only [print, List.cons_append, List.append_assoc, parseExpr, parseOperand]
+      rw [onTok_ne _ _ _ _ _ (by simp), onTok_eq]
+      simp only [if_true, onTok_eq]
+      rw [params_ok (p :: ps') (by simp) hps F1 _ (by simp only [List.length_cons] at hF ⊢; omega)]
+      simp only [bnd, expect, if_true]
+      rw [hole fb (hgf.c hcf) F1 _ (stops_semi _) (by omega)]
+      simp only [bnd, expect, if_true]
+      rw [open_body rest' (hgr.c hcr) F1 rest hst (by omega)]
+      simp only [bnd]
+      exact hcl'
+  exact mkQuery _ rfl rfl rfl rfl hC (fun h => by simp [isObjVal, isOpen, cat] at h)
+
+theorem good_piece (s : String) : Good (.piece s) :=
+  mkOther _ (by simp [cat]) rfl rfl rfl (fun h => by simp [cat] at h) (fun h => by simp [cat] at h) (fun h => by simp [cat] at h)
+    (fun h => by simp [cat] at h) (fun q h => by cases h) (fun c t h => by cases h)
+
+theorem good_interp (q : E) (hw : wf (.interp q) = true) (hg : Good q) : Good (.interp q) := by
+  have hw' : wf q = true ∧ cat q = .query := by simpa [wf, isQ] using hw
+  exact mkOther _ (by simp [cat]) rfl rfl rfl (fun h => by simp [cat] at h) (fun h => by simp [cat] at h) (fun h => by simp [cat] at h)
+    (fun h => by simp [cat] at h) (fun q' h => by cases h; exact hg.c hw'.2) (fun c t h => by cases h)
+
+theorem good_elif (c t : E) (hw : wf (.elif c t) = true) (hgc : Good c) (hgt : Good t) : Good (.elif c t) := by
+  have hw' : wf c = true ∧ cat c = .query ∧ wf t = true ∧ cat t = .query := by
+    simp only [wf, Bool.and_eq_true, isQ, beq_iff_eq] at hw; exact ⟨hw.1.1.1, hw.1.1.2, hw.1.2, hw.2⟩
+  exact mkOther _ (by simp [cat]) rfl rfl rfl (fun h => by simp [cat] at h) (fun h => by simp [cat] at h) (fun h => by simp [cat] at h)
+    (fun h => by simp [cat] at h) (fun q h => by cases h) (fun c' t' h => by cases h; exact ⟨hgc.c hw'.2.1, hgt.c hw'.2.2.2⟩)
+
+/-! brackets -/
+
+theorem mkBracket (b : E) (hc : cat b = .bracket) (hnp : isPostfixable b = false) (hnt : isTerm b = false) (hns : isStr b = false)
+    (hnip : ∀ q, b ≠ .interp q) (hnel : ∀ c t, b ≠ .elif c t) (h : PBr b) : Good b :=
+  mkOther b (by rw [hc]; simp) hnp hnt hns (fun _ => h) (fun h' => by rw [hc] at h'; cases h') (fun h' => by rw [hc] at h'; cases h')
+    (fun h' => by rw [hc] at h'; cases h') (fun q h' => absurd h' (hnip q)) (fun c t h' => absurd h' (hnel c t))
+
+theorem good_bIter : Good .bIter := mkBracket _ rfl rfl rfl rfl (by simp) (by simp) (by
+  intro F rest hF
+  simp only [cost] at hF
+  obtain ⟨F1, rfl⟩ : ∃ F1, F = F1 + 1 := ⟨F - 1, by omega⟩
+  simp [print, parseBracket, onTok])
+
+theorem good_bIdx (e : E) (hw : wf (.bIdx e) = true) (hg : Good e) : Good (.bIdx e) := by
+  have hw' : wf e = true ∧ cat e = .query := by simpa [wf, isQ] using hw
+  exact mkBracket _ rfl rfl rfl rfl (by simp) (by simp) (by
+    intro F rest hF
+    simp only [cost] at hF
+    obtain ⟨F1, rfl⟩ : ∃ F1, F = F1 + 1 := ⟨F - 1, by omega⟩
+    simp only [print, List.append_assoc, List.cons_append, List.nil_append, parseBracket]
+    rw [onTok_query .rbrack e hw'.1 hw'.2 _ _ _ rfl, onTok_query .colon e hw'.1 hw'.2 _ _ _ rfl,
+      hole e (hg.c hw'.2) F1 _ (stops_rbrack _) (by omega)]
+    simp [bnd, onTok])
+
+theorem good_bSliceL (e : E) (hw : wf (.bSliceL e) = true) (hg : Good e) : Good (.bSliceL e) := by
+  have hw' : wf e = true ∧ cat e = .query := by simpa [wf, isQ] using hw
+  exact mkBracket _ rfl rfl rfl rfl (by simp) (by simp) (by
+    intro F rest hF
+    simp only [cost] at hF
+    obtain ⟨F1, rfl⟩ : ∃ F1, F = F1 + 1 := ⟨F - 1, by omega⟩
+    simp only [print, List.append_assoc, List.cons_append, List.nil_append, parseBracket]
+    rw [onTok_query .rbrack e hw'.1 hw'.2 _ _ _ rfl, onTok_query .colon e hw'.1 hw'.2 _ _ _ rfl,
+      hole e (hg.c hw'.2) F1 _ (stops_colon _) (by omega)]
+    simp [bnd, onTok, expect])
+
+theorem good_bSliceR (e : E) (hw : wf (.bSliceR e) = true) (hg : Good e) : Good (.bSliceR e) := by
+  have hw' : wf e = true ∧ cat e = .query := by simpa [wf, isQ] using hw
+  exact mkBracket _ rfl rfl rfl rfl (by simp) (by simp) (by
+    intro F rest hF
+    simp only [cost] at hF
+    obtain ⟨F1, rfl⟩ : ∃ F1, F = F1 + 1 := ⟨F - 1, by omega⟩
+    simp only [print, List.append_assoc, List.cons_append, List.nil_append, parseBracket]
+    rw [onTok_ne _ _ _ _ _ (by simp), onTok_eq, hole e (hg.c hw'.2) F1 _ (stops_rbrack _) (by omega)]
+    simp [bnd, expect])
+
+theorem good_bSlice (a b : E) (hw : wf (.bSlice a b) = true) (hga : Good a) (hgb : Good b) : Good (.bSlice a b) := by
+  have hw' : wf a = true ∧ cat a = .query ∧ wf b = true ∧ cat b = .query := by
+    simp only [wf, Bool.and_eq_true, isQ, beq_iff_eq] at hw; exact ⟨hw.1.1.1, hw.1.1.2, hw.1.2, hw.2⟩
+  exact mkBracket _ rfl rfl rfl rfl (by simp) (by simp) (by
+    intro F rest hF
+    simp only [cost] at hF
+    have := cost_ge a; have := cost_ge b
+    obtain ⟨F1, rfl⟩ : ∃ F1, F = F1 + 1 := ⟨F - 1, by omega⟩
+    simp only [print, List.append_assoc, List.cons_append, List.nil_append, parseBracket]
+    rw [onTok_query .rbrack a hw'.1 hw'.2.1 _ _ _ rfl, onTok_query .colon a hw'.1 hw'.2.1 _ _ _ rfl,
+      hole a (hga.c hw'.2.1) F1 _ (stops_colon _) (by omega)]
+    simp only [bnd]
+    rw [onTok_ne _ _ _ _ _ (by simp)]
+    simp only [expect, if_true]
+    rw [onTok_query .rbrack b hw'.2.2.1 hw'.2.2.2 _ _ _ rfl, hole b (hgb.c hw'.2.2.2) F1 _ (stops_rbrack _) (by omega)]
+    simp [bnd, expect])
+
+/-! patterns -/
+
+theorem mkPattern (p : E) (hc : cat p = .pattern) (hnp : isPostfixable p = false) (hnt : isTerm p = false) (hns : isStr p = false)
+    (hnip : ∀ q, p ≠ .interp q) (hnel : ∀ c t, p ≠ .elif c t) (h : PPat p) : Good p :=
+  mkOther p (by rw [hc]; simp) hnp hnt hns (fun h' => by rw [hc] at h'; cases h') (fun h' => by rw [hc] at h'; cases h') (fun _ => h)
+    (fun h' => by rw [hc] at h'; cases h') (fun q h' => absurd h' (hnip q)) (fun c t h' => absurd h' (hnel c t))
+
+theorem good_pvar (s : String) : Good (.pvar s) := mkPattern _ rfl rfl rfl rfl (by simp) (by simp) (by
+  intro F rest hF
+  simp only [cost] at hF
+  obtain ⟨F1, rfl⟩ : ∃ F1, F = F1 + 1 := ⟨F - 1, by omega⟩
+  simp [print, parsePattern])
+
+theorem good_parr (ps : List E) (hw : wf (.parr ps) = true) (hg : ∀ p ∈ ps, Good p) : Good (.parr ps) := by
+  have hw' : ps ≠ [] ∧ wfAll .pattern ps = true := by
+    simp only [wf, Bool.and_eq_true, Bool.not_eq_true', List.isEmpty_eq_false_iff] at hw; exact hw
+  exact mkPattern _ rfl rfl rfl rfl (by simp) (by simp) (by
+    intro F rest hF
+    simp only [cost] at hF
+    obtain ⟨F1, rfl⟩ : ∃ F1, F = F1 + 1 := ⟨F - 1, by omega⟩
+    simp only [print, List.append_assoc, List.cons_append, List.nil_append, parsePattern]
+    rw [sep_ok .pattern .rbrack (Or.inr rfl) ps hw'.1
+      (fun z hz => PElem_pattern .rbrack z (wfAll_mem _ _ hw'.2 z hz).2 (hg z hz)) F1 rest (by omega)]
+    rfl)
+
+theorem good_pobj (es : List E) (hw : wf (.pobj es) = true) (hg : ∀ p ∈ es, Good p) : Good (.pobj es) := by
+  have hw' : es ≠ [] ∧ wfAll .patEntry es = true := by
+    simp only [wf, Bool.and_eq_true, Bool.not_eq_true', List.isEmpty_eq_false_iff] at hw; exact hw
+  exact mkPattern _ rfl rfl rfl rfl (by simp) (by simp) (by
+    intro F rest hF
+    simp only [cost] at hF
+    obtain ⟨F1, rfl⟩ : ∃ F1, F = F1 + 1 := ⟨F - 1, by omega⟩
+    simp only [print, List.append_assoc, List.cons_append, List.nil_append, parsePattern]
+    rw [sep_ok .patEntry .rbrace (Or.inl rfl) es hw'.1
+      (fun z hz => PElem_patEntry z (wfAll_mem _ _ hw'.2 z hz).2 (hg z hz)) F1 rest (by omega)]
+    rfl)
+
+theorem mkEntry (e : E) (hc : cat e = .entry) (hnp : isPostfixable e = false) (hnt : isTerm e = false) (hns : isStr e = false)
+    (hnip : ∀ q, e ≠ .interp q) (hnel : ∀ c t, e ≠ .elif c t) (h : PEntry e) : Good e :=
+  mkOther e (by rw [hc]; simp) hnp hnt hns (fun h' => by rw [hc] at h'; cases h') (fun _ => h) (fun h' => by rw [hc] at h'; cases h')
+    (fun h' => by rw [hc] at h'; cases h') (fun q h' => absurd h' (hnip q)) (fun c t h' => absurd h' (hnel c t))
+
+theorem mkPatEntry (e : E) (hc : cat e = .patEntry) (hnp : isPostfixable e = false) (hnt : isTerm e = false) (hns : isStr e = false)
+    (hnip : ∀ q, e ≠ .interp q) (hnel : ∀ c t, e ≠ .elif c t) (h : PPatEntry e) : Good e :=
+  mkOther e (by rw [hc]; simp) hnp hnt hns (fun h' => by rw [hc] at h'; cases h') (fun h' => by rw [hc] at h'; cases h')
+    (fun h' => by rw [hc] at h'; cases h') (fun _ => h) (fun q h' => absurd h' (hnip q)) (fun c t h' => absurd h' (hnel c t))
+
+/-- a key token is neither `(` nor a string -/
+theorem keyTok_facts (k : Tok) (hk : isKeyTok k = true) (r : List Tok) :
+    k ≠ .lparen ∧ strHead (k :: r) = .no ∧ (∀ s, k ≠ .var s → True) := by
+  cases k <;> simp_all [isKeyTok, strHead]
+
+theorem sepStop_colon (rest : List Tok) (h : sepStop rest = true) {β : Type} (k : List Tok → β) (n : β) :
+    onTok .colon rest k n = n := by
+  cases rest with
+  | nil => simp [sepStop, headIs] at h
+  | cons t ts =>
+    simp only [sepStop, headIs, Bool.or_eq_true, beq_iff_eq] at h
+    rcases h with h | h <;> subst h <;> simp [onTok]
+
+theorem parseEntry_key (F1 : Nat) (k : Tok) (hk : isKeyTok k = true) (r : List Tok) :
+    parseEntry (F1 + 1) (k :: r) =
+      onTok .colon r (fun r' => bnd (parseObjVal F1 r') fun v r'' => some (.kvKey k (some v), r'')) (some (.kvKey k none, r)) := by
+  cases k <;> simp [isKeyTok] at hk <;> simp [parseEntry, onStr, strHead, isKeyTok]
+  · rename_i o; cases o <;> simp_all [isKeyTok]
+
+theorem good_kvKey_none (k : Tok) (hw : wf (.kvKey k none) = true) : Good (.kvKey k none) := by
+  have hk : isKeyTok k = true := by simpa [wf] using hw
+  exact mkEntry _ rfl rfl rfl rfl (by simp) (by simp) (by
+    intro F rest hF hs
+    simp only [cost] at hF
+    obtain ⟨F1, rfl⟩ : ∃ F1, F = F1 + 1 := ⟨F - 1, by omega⟩
+    simp only [print, List.cons_append, List.nil_append]
+    rw [parseEntry_key F1 k hk rest, sepStop_colon rest hs])
+
+theorem good_kvKey_some (k : Tok) (v : E) (hw : wf (.kvKey k (some v)) = true) (hg : Good v) : Good (.kvKey k (some v)) := by
+  have hw' : isKeyTok k = true ∧ wf v = true ∧ isObjVal v = true := by
+    simp only [wf, Bool.and_eq_true] at hw; exact ⟨hw.1.1, hw.1.2, hw.2⟩
+  have hcv : cat v = .query := by
+    have := hw'.2.2
+    cases v <;> simp_all [isObjVal, cat]
+  exact mkEntry _ rfl rfl rfl rfl (by simp) (by simp) (by
+    intro F rest hF hs
+    simp only [cost] at hF
+    obtain ⟨F1, rfl⟩ : ∃ F1, F = F1 + 1 := ⟨F - 1, by omega⟩
+    simp only [print, List.cons_append]
+    rw [parseEntry_key F1 k hw'.1, onTok_eq, hg.ov hcv hw'.2.2 F1 rest (by omega) hs]
+    rfl)
+
+
+theorem objVal_cat (v : E) (h : isObjVal v = true) : cat v = .query := by
+  cases v <;> simp_all [isObjVal, cat]
+
+/-- an entry that starts with a string -/
+theorem parseEntry_str (F1 : Nat) (s : E) (hs : isStr s = true) (rest : List Tok) :
+    parseEntry (F1 + 1) (print s ++ rest) =
+      bnd (parseStrTail F1 (strHead (print s ++ rest))) fun s r1 =>
+        onTok .colon r1 (fun r' => bnd (parseObjVal F1 r') fun v r'' => some (.kvStr s (some v), r'')) (some (.kvStr s none, r1)) := by
+  cases s <;> simp [isStr] at hs <;> simp [print, parseEntry, onStr, strHead]
+
+theorem good_kvStr_none (s : E) (hw : wf (.kvStr s none) = true) (hg : Good s) : Good (.kvStr s none) := by
+  have hw' : wf s = true ∧ isStr s = true := by simpa [wf] using hw
+  exact mkEntry _ rfl rfl rfl rfl (by simp) (by simp) (by
+    intro F rest hF hs
+    simp only [cost] at hF
+    have := cost_ge s
+    obtain ⟨F1, rfl⟩ : ∃ F1, F = F1 + 1 := ⟨F - 1, by omega⟩
+    simp only [print]
+    rw [parseEntry_str F1 s hw'.2, hg.s hw'.2 F1 rest (by omega)]
+    simp only [bnd]
+    rw [sepStop_colon rest hs])
+
+theorem good_kvStr_some (s v : E) (hw : wf (.kvStr s (some v)) = true) (hgs : Good s) (hgv : Good v) : Good (.kvStr s (some v)) := by
+  have hw' : wf s = true ∧ isStr s = true ∧ wf v = true ∧ isObjVal v = true := by
+    simp only [wf, Bool.and_eq_true] at hw; exact ⟨hw.1.1.1, hw.1.1.2, hw.1.2, hw.2⟩
+  exact mkEntry _ rfl rfl rfl rfl (by simp) (by simp) (by
+    intro F rest hF hs
+    simp only [cost] at hF
+    have := cost_ge s
+    obtain ⟨F1, rfl⟩ : ∃ F1, F = F1 + 1 := ⟨F - 1, by omega⟩
+    simp only [print, List.append_assoc, List.cons_append]
+    rw [parseEntry_str F1 s hw'.2.1, hgs.s hw'.2.1 F1 _ (by omega)]
+    simp only [bnd, onTok_eq]
+    rw [hgv.ov (objVal_cat v hw'.2.2.2) hw'.2.2.2 F1 rest (by omega) hs])
+
+theorem good_kvQ (q v : E) (hw : wf (.kvQ q v) = true) (hgq : Good q) (hgv : Good v) : Good (.kvQ q v) := by
+  have hw' : wf q = true ∧ cat q = .query ∧ wf v = true ∧ isObjVal v = true := by
+    simp only [wf, Bool.and_eq_true, isQ, beq_iff_eq] at hw; exact ⟨hw.1.1.1, hw.1.1.2, hw.1.2, hw.2⟩
+  exact mkEntry _ rfl rfl rfl rfl (by simp) (by simp) (by
+    intro F rest hF hs
+    simp only [cost] at hF
+    have := cost_ge q
+    obtain ⟨F1, rfl⟩ : ∃ F1, F = F1 + 1 := ⟨F - 1, by omega⟩
+    simp only [print, List.append_assoc, List.cons_append, parseEntry]
+    rw [hole q (hgq.c hw'.2.1) F1 _ (stops_rparen _) (by omega)]
+    simp only [bnd, expect, if_true]
+    rw [hgv.ov (objVal_cat v hw'.2.2.2) hw'.2.2.2 F1 rest (by omega) hs])
+
+/-! pattern entries -/
+
+theorem good_peVar (s : String) : Good (.peVar s) := mkPatEntry _ rfl rfl rfl rfl (by simp) (by simp) (by
+  intro F rest hF hs
+  simp only [cost] at hF
+  obtain ⟨F1, rfl⟩ : ∃ F1, F = F1 + 1 := ⟨F - 1, by omega⟩
+  simp only [print, List.cons_append, List.nil_append, parsePatEntry]
+  cases rest with
+  | nil => simp [onTok]
+  | cons t ts =>
+    have : t ≠ .colon := by intro h; subst h; simp [headIs] at hs
+    simp [onTok, this])
+
+theorem parsePatEntry_key (F1 : Nat) (k : Tok) (hk : isKeyTok k = true) (r : List Tok) :
+    parsePatEntry (F1 + 1) (k :: .colon :: r) = bnd (parsePattern F1 r) fun p r'' => some (.peKey k p, r'') := by
+  cases k <;> simp [isKeyTok] at hk <;> simp [parsePatEntry, onStr, strHead, isKeyTok, onTok, expect]
+  · rename_i o; cases o <;> simp_all [isKeyTok]
+
+theorem good_peKey (k : Tok) (p : E) (hw : wf (.peKey k p) = true) (hg : Good p) : Good (.peKey k p) := by
+  have hw' : isKeyTok k = true ∧ wf p = true ∧ cat p = .pattern := by
+    simp only [wf, Bool.and_eq_true, beq_iff_eq] at hw; exact ⟨hw.1.1, hw.1.2, hw.2⟩
+  exact mkPatEntry _ rfl rfl rfl rfl (by simp) (by simp) (by
+    intro F rest hF _
+    simp only [cost] at hF
+    obtain ⟨F1, rfl⟩ : ∃ F1, F = F1 + 1 := ⟨F - 1, by omega⟩
+    simp only [print, List.cons_append]
+    rw [parsePatEntry_key F1 k hw'.1, hg.pt hw'.2.2 F1 rest (by omega)]
+    rfl)
+
+theorem parsePatEntry_str (F1 : Nat) (s : E) (hs : isStr s = true) (rest : List Tok) :
+    parsePatEntry (F1 + 1) (print s ++ rest) =
+      bnd (parseStrTail F1 (strHead (print s ++ rest))) fun s r1 =>
+        expect .colon r1 fun r' => bnd (parsePattern F1 r') fun p r'' => some (.peStr s p, r'') := by
+  cases s <;> simp [isStr] at hs <;> simp [print, parsePatEntry, onStr, strHead]
+
+theorem good_peStr (s p : E) (hw : wf (.peStr s p) = true) (hgs : Good s) (hgp : Good p) : Good (.peStr s p) := by
+  have hw' : wf s = true ∧ isStr s = true ∧ wf p = true ∧ cat p = .pattern := by
+    simp only [wf, Bool.and_eq_true, beq_iff_eq] at hw; exact ⟨hw.1.1.1, hw.1.1.2, hw.1.2, hw.2⟩
+  exact mkPatEntry _ rfl rfl rfl rfl (by simp) (by simp) (by
+    intro F rest hF _
+    simp only [cost] at hF
+    have := cost_ge s
+    obtain ⟨F1, rfl⟩ : ∃ F1, F = F1 + 1 := ⟨F - 1, by omega⟩
+    simp only [print, List.append_assoc, List.cons_append]
+    rw [parsePatEntry_str F1 s hw'.2.1, hgs.s hw'.2.1 F1 _ (by omega)]
+    simp only [bnd, expect, if_true]
+    rw [hgp.pt hw'.2.2.2 F1 rest (by omega)])
+
+theorem good_peQ (q p : E) (hw : wf (.peQ q p) = true) (hgq : Good q) (hgp : Good p) : Good (.peQ q p) := by
+  have hw' : wf q = true ∧ cat q = .query ∧ wf p = true ∧ cat p = .pattern := by
+    simp only [wf, Bool.and_eq_true, isQ, beq_iff_eq] at hw; exact ⟨hw.1.1.1, hw.1.1.2, hw.1.2, hw.2⟩
+  exact mkPatEntry _ rfl rfl rfl rfl (by simp) (by simp) (by
+    intro F rest hF _
+    simp only [cost] at hF
+    have := cost_ge q
+    obtain ⟨F1, rfl⟩ : ∃ F1, F = F1 + 1 := ⟨F - 1, by omega⟩
+    simp only [print, List.append_assoc, List.cons_append, parsePatEntry]
+    rw [hole q (hgq.c hw'.2.1) F1 _ (stops_rparen _) (by omega)]
+    simp only [bnd, expect, if_true]
+    rw [hgp.pt hw'.2.2.2 F1 rest (by omega)])
+
+theorem wfAll_wf (c : Cat) (xs : List E) (h : wfAll c xs = true) : ∀ x ∈ xs, wf x = true :=
+  fun x hx => (wfAll_mem c xs h x hx).1
+
+mutual
+  theorem good : ∀ (e : E), wf e = true → Good e
+    | .num s, _ => good_num s
+    | .strl s, _ => good_strl s
+    | .istr ps, hw => good_istr ps hw (goodAll ps (wfAll_wf .part ps (by simpa [wf] using hw)))
+    | .ident s, _ => good_ident s
+    | .var s, _ => good_var s
+    | .call s as, hw => good_call s as hw (goodAll as (wfAll_wf .query as (by simp [wf] at hw; exact hw.2)))
+    | .field s, _ => good_field s
+    | .dot, _ => good_dot
+    | .dotdot, _ => good_dotdot
+    | .dotStr s, hw => good_dotStr s hw (good s (by simp [wf] at hw; exact hw.1))
+    | .dotIdx b, hw => good_dotIdx b hw (good b (by simp [wf] at hw; exact hw.1))
+    | .lit k, hw => good_lit k hw
+    | .fmt s, _ => good_fmt s
+    | .fmtS n s, hw => good_fmtS n s hw (good s (by simp [wf] at hw; exact hw.1))
+    | .arr none, _ => good_arr_none
+    | .arr (some q), hw => good_arr_some q hw (good q (by simp [wf] at hw; exact hw.1))
+    | .obj kvs, hw => good_obj kvs hw (goodAll kvs (wfAll_wf .entry kvs (by simpa [wf] using hw)))
+    | .neg e, hw => good_neg e hw (good e (by simp [wf] at hw; exact hw.1))
+    | .pos e, hw => good_pos e hw (good e (by simp [wf] at hw; exact hw.1))
+    | .ite c t es none, hw =>
+      good_ite c t es none hw (good c (by simp [wf] at hw; exact hw.1.1.1.1)) (good t (by simp [wf] at hw; exact hw.1.1.2))
+        (goodAll es (wfAll_wf .elifC es (by simp [wf] at hw; exact hw.2))) (fun e h => by cases h)
+    | .ite c t es (some e), hw =>
+      good_ite c t es (some e) hw (good c (by simp [wf] at hw; exact hw.1.1.1.1.1.1)) (good t (by simp [wf] at hw; exact hw.1.1.1.1.2))
+        (goodAll es (wfAll_wf .elifC es (by simp [wf] at hw; exact hw.1.1.2)))
+        (fun e' h => by cases h; exact good e (by simp [wf] at hw; exact hw.1.2))
+    | .try_ b none, hw => good_try_none b hw (good b (by simp [wf] at hw; exact hw.1))
+    | .try_ b (some c), hw =>
+      good_try_some b c hw (good b (by simp [wf] at hw; exact hw.1.1.1.1)) (good c (by simp [wf] at hw; exact hw.1.2))
+    | .reduce src p a b, hw =>
+      have h : wf src = true ∧ wf p = true ∧ wf a = true ∧ wf b = true := by
+        simp only [wf, Bool.and_eq_true] at hw
+        exact ⟨hw.1.1.1.1.1.1.1.1.1, hw.1.1.1.1.1.2, hw.1.1.1.2, hw.1.2⟩
+      good_reduce src p a b hw (good src h.1) (good p h.2.1) (good a h.2.2.1) (good b h.2.2.2)
+    | .foreach src p a b none, hw =>
+      have h : wf src = true ∧ wf p = true ∧ wf a = true ∧ wf b = true := by
+        simp only [wf, Bool.and_eq_true] at hw
+        exact ⟨hw.1.1.1.1.1.1.1.1.1, hw.1.1.1.1.1.2, hw.1.1.1.2, hw.1.2⟩
+      good_foreach_none src p a b hw (good src h.1) (good p h.2.1) (good a h.2.2.1) (good b h.2.2.2)
+    | .foreach src p a b (some c), hw =>
+      have h : wf src = true ∧ wf p = true ∧ wf a = true ∧ wf b = true ∧ wf c = true := by
+        simp only [wf, Bool.and_eq_true] at hw
+        exact ⟨hw.1.1.1.1.1.1.1.1.1.1.1, hw.1.1.1.1.1.1.1.2, hw.1.1.1.1.1.2, hw.1.1.1.2, hw.1.2⟩
+      good_foreach_some src p a b c hw (good src h.1) (good p h.2.1) (good a h.2.2.1) (good b h.2.2.2.1) (good c h.2.2.2.2)
+    | .brk s, _ => good_brk s
+    | .paren e, hw => good_paren e hw (good e (by simp [wf] at hw; exact hw.1))
+    | .opt t, hw => good_opt t hw (good t (by simp [wf] at hw; exact hw.1))
+    | .sfxField t s, hw => good_sfxField t s hw (good t (by simp [wf] at hw; exact hw.1))
+    | .sfxStr t s, hw =>
+      good_sfxStr t s hw (good t (by simp [wf] at hw; exact hw.1.1.1)) (good s (by simp [wf] at hw; exact hw.1.2))
+    | .sfxBr t b, hw =>
+      good_sfxBr t b hw (good t (by simp [wf] at hw; exact hw.1.1.1.1)) (good b (by simp [wf] at hw; exact hw.1.2))
+    | .bin o l r, hw => good_bin o l r hw (good l (binWf o l r hw).wl) (good r (binWf o l r hw).wr)
+    | .bind t ps b, hw =>
+      have h : wf t = true ∧ wfAll .pattern ps = true ∧ wf b = true := by
+        simp only [wf, Bool.and_eq_true] at hw
+        exact ⟨hw.1.1.1.1.1, hw.1.1.2, hw.1.2⟩
+      good_bind t ps b hw (good t h.1) (goodAll ps (wfAll_wf .pattern ps h.2.1)) (good b h.2.2)
+    | .label s b, hw => good_label s b hw (good b (by simp [wf] at hw; exact hw.1))
+    | .def_ n ps fb rest, hw =>
+      have h : wf fb = true ∧ wf rest = true := by
+        simp only [wf, Bool.and_eq_true] at hw
+        exact ⟨hw.1.1.1.2, hw.1.2⟩
+      good_def n ps fb rest hw (good fb h.1) (good rest h.2)
+    | .piece s, _ => good_piece s
+    | .interp q, hw => good_interp q hw (good q (by simp [wf] at hw; exact hw.1))
+    | .kvKey k none, hw => good_kvKey_none k hw
+    | .kvKey k (some v), hw => good_kvKey_some k v hw (good v (by simp [wf] at hw; exact hw.1.2))
+    | .kvStr s none, hw => good_kvStr_none s hw (good s (by simp [wf] at hw; exact hw.1))
+    | .kvStr s (some v), hw =>
+      good_kvStr_some s v hw (good s (by simp [wf] at hw; exact hw.1.1.1)) (good v (by simp [wf] at hw; exact hw.1.2))
+    | .kvQ q v, hw => good_kvQ q v hw (good q (by simp [wf] at hw; exact hw.1.1.1)) (good v (by simp [wf] at hw; exact hw.1.2))
+    | .elif c t, hw => good_elif c t hw (good c (by simp [wf] at hw; exact hw.1.1.1)) (good t (by simp [wf] at hw; exact hw.1.2))
+    | .bIter, _ => good_bIter
+    | .bIdx e, hw => good_bIdx e hw (good e (by simp [wf] at hw; exact hw.1))
+    | .bSliceL e, hw => good_bSliceL e hw (good e (by simp [wf] at hw; exact hw.1))
+    | .bSliceR e, hw => good_bSliceR e hw (good e (by simp [wf] at hw; exact hw.1))
+    | .bSlice a b, hw => good_bSlice a b hw (good a (by simp [wf] at hw; exact hw.1.1.1)) (good b (by simp [wf] at hw; exact hw.1.2))
+    | .pvar s, _ => good_pvar s
+    | .parr ps, hw => good_parr ps hw (goodAll ps (wfAll_wf .pattern ps (by simp [wf] at hw; exact hw.2)))
+    | .pobj es, hw => good_pobj es hw (goodAll es (wfAll_wf .patEntry es (by simp [wf] at hw; exact hw.2)))
+    | .peVar s, _ => good_peVar s
+    | .peKey k p, hw => good_peKey k p hw (good p (by simp [wf] at hw; exact hw.1.2))
+    | .peStr s p, hw => good_peStr s p hw (good s (by simp [wf] at hw; exact hw.1.1.1)) (good p (by simp [wf] at hw; exact hw.1.2))
+    | .peQ q p, hw => good_peQ q p hw (good q (by simp [wf] at hw; exact hw.1.1.1)) (good p (by simp [wf] at hw; exact hw.1.2))
+  theorem goodAll : ∀ (xs : List E), (∀ x ∈ xs, wf x = true) → ∀ x ∈ xs, Good x
+    | [], _ => fun x hx => by simp at hx
+    | y :: ys, h => fun x hx =>
+      have hy := good y (h y (by simp))
+      have hys := goodAll ys (fun z hz => h z (by simp [hz]))
+      by
+        rcases List.mem_cons.mp hx with rfl | hx
+        · exact hy
+        · exact hys x hx
+end
+
+
+/-! ### the fuel of `parse` is enough -/
+
+mutual
+  theorem cost_le : ∀ (e : E), cost e + 1 ≤ 7 * (print e).length
+    | .num _ | .strl _ | .ident _ | .var _ | .field _ | .dot | .dotdot | .lit _ | .fmt _ | .piece _ | .bIter | .pvar _
+    | .peVar _ | .kvKey _ none => by simp [cost, print]
+    | .brk _ => by simp [cost, print]
+    | .arr none => by simp [cost, print]
+    | .istr ps => by have := costL_le ps; simp [cost, print]; omega
+    | .call _ as => by have := costSep_le .semi as; simp [cost, print]; omega
+    | .dotStr s => by have := cost_le s; simp [cost, print]; omega
+    | .dotIdx b => by have := cost_le b; simp [cost, print]; omega
+    | .fmtS _ s => by have := cost_le s; simp [cost, print]; omega
+    | .arr (some q) => by have := cost_le q; simp [cost, print]; omega
+    | .obj kvs => by have := costSep_le (.op .comma) kvs; simp [cost, print]; omega
+    | .neg e => by have := cost_le e; simp [cost, print]; omega
+    | .pos e => by have := cost_le e; simp [cost, print]; omega
+    | .ite c t es none => by have := cost_le c; have := cost_le t; have := costL_le es; simp [cost, print]; omega
+    | .ite c t es (some e) => by
+      have := cost_le c; have := cost_le t; have := costL_le es; have := cost_le e; simp [cost, print]; omega
+    | .try_ b none => by have := cost_le b; simp [cost, print]; omega
+    | .try_ b (some c) => by have := cost_le b; have := cost_le c; simp [cost, print]; omega
+    | .reduce s p a b => by
+      have := cost_le s; have := cost_le p; have := cost_le a; have := cost_le b; simp [cost, print]; omega
+    | .foreach s p a b none => by
+      have := cost_le s; have := cost_le p; have := cost_le a; have := cost_le b; simp [cost, print]; omega
+    | .foreach s p a b (some c) => by
+      have := cost_le s; have := cost_le p; have := cost_le a; have := cost_le b; have := cost_le c; simp [cost, print]; omega
+    | .paren e => by have := cost_le e; simp [cost, print]; omega
+    | .opt t => by have := cost_le t; simp [cost, print]; omega
+    | .sfxField t _ => by have := cost_le t; simp [cost, print]; omega
+    | .sfxStr t s => by have := cost_le t; have := cost_le s; simp [cost, print]; omega
+    | .sfxBr t b => by have := cost_le t; have := cost_le b; simp [cost, print]; omega
+    | .bin _ l r => by have := cost_le l; have := cost_le r; simp [cost, print]; omega
+    | .bind t ps b => by have := cost_le t; have := costSep_le .destalt ps; have := cost_le b; simp [cost, print]; omega
+    | .label _ b => by have := cost_le b; simp [cost, print]; omega
+    | .def_ _ [] fb rest => by have := cost_le fb; have := cost_le rest; simp [cost, print]; omega
+    | .def_ _ (p :: ps) fb rest => by
+      have := cost_le fb; have := cost_le rest
+      have hl : (List.intersperse Tok.semi (p :: ps)).length = 2 * ps.length + 1 := by
+        simp [List.length_intersperse]; omega
+      simp [cost, print, hl]; omega
+    | .interp q => by have := cost_le q; simp [cost, print]; omega
+    | .kvKey _ (some v) => by have := cost_le v; simp [cost, print]; omega
+    | .kvStr s none => by have := cost_le s; simp [cost, print]; omega
+    | .kvStr s (some v) => by have := cost_le s; have := cost_le v; simp [cost, print]; omega
+    | .kvQ q v => by have := cost_le q; have := cost_le v; simp [cost, print]; omega
+    | .elif c t => by have := cost_le c; have := cost_le t; simp [cost, print]; omega
+    | .bIdx e => by have := cost_le e; simp [cost, print]; omega
+    | .bSliceL e => by have := cost_le e; simp [cost, print]; omega
+    | .bSliceR e => by have := cost_le e; simp [cost, print]; omega
+    | .bSlice a b => by have := cost_le a; have := cost_le b; simp [cost, print]; omega
+    | .parr ps => by have := costSep_le (.op .comma) ps; simp [cost, print]; omega
+    | .pobj es => by have := costSep_le (.op .comma) es; simp [cost, print]; omega
+    | .peKey _ p => by have := cost_le p; simp [cost, print]; omega
+    | .peStr s p => by have := cost_le s; have := cost_le p; simp [cost, print]; omega
+    | .peQ q p => by have := cost_le q; have := cost_le p; simp [cost, print]; omega
+  theorem costL_le : ∀ (xs : List E), costL xs ≤ 7 * (printCat xs).length
+    | [] => by simp [costL, printCat]
+    | x :: rest => by have := cost_le x; have := costL_le rest; simp [costL, printCat]; omega
+  theorem costSep_le (sep : Tok) : ∀ (xs : List E), costL xs ≤ 7 * (printSep sep xs).length
+    | [] => by simp [costL, printSep]
+    | [x] => by have := cost_le x; simp [costL, printSep]; omega
+    | x :: y :: rest => by have := cost_le x; have := costSep_le sep (y :: rest); simp [costL, printSep] at *; omega
+end
+
+theorem follow_nil (e : E) (q : Bool) : follow e q [] = true := rfl
+
+/-- the printed form of a well-formed query parses back to the query -/
+theorem print_parse (e : E) (hw : wf e = true) (hq : cat e = .query) : parse (print e) = some e := by
+  have hC := (good e hw).c hq
+  have hc := cost_le e
+  have h := hC 1 (8 * (print e).length + 8) 1 true [] (e, []) (by omega) (entry_one e) (follow_nil e true)
+    (climb_stops 0 1 e (prevOf e) [] rfl)
+  simp only [List.append_nil] at h
+  simp [parse, parseFuel, h]
 
 end Proofs.C11.Full
